@@ -332,7 +332,11 @@ def _r5_routes(run):
             if v[0] == "sub" and v[1][0] == "sym" and "@" in v[1][1]:
                 sels.append((e, v))
     if not sels:
-        problems.append("no child selection `children[index]` found in the descent loop")
+        # the descent is written in a form the rule does not follow (a helper picks the sibling, a table maps bits to indices): nothing
+        # definite can be said about it from here; (c) above still ties the route to _create_level1_tiles / _div4
+        run.undecided("C04.R5", f, None, "create_single_tile: the child selection is not of the form `children[<index from the bits of pos>]` inside the descent loop; "
+                      "cannot relate it to 2*iy + ix", kind="route-single-tile-shape")
+        return
     d = None
     for e, v in sels:
         idx = v[2]
